@@ -6,6 +6,7 @@
 //!   j a1 a2 ..     -> <arg::join [a1,a2,..]>
 //!   s x            -> notstr | ok w1 w2 .. | err | panic        (arg::split)
 //!   qs a1 a2 ..    -> <join> | <split(join ..)>
+//!   aqs a          -> <Arg::from(a).quote()> | <split of that>
 //!   e a            -> <arg::to_stfu8 a>
 //!   d x            -> notstr | ok <bytes> | err                 (arg::from_stfu8)
 //!   l a            -> <bytes of OsStr::to_string_lossy a>       (std; checks the UTF-8 model)
@@ -68,6 +69,11 @@ fn c17(cmd: &str, f: &[&str]) -> Option<String> {
         ("qs", _) => {
             let j = arg::join(&args_of(f));
             format!("{} | {}", bytes_field(j.as_bytes()), show_split(j.as_bytes()))
+        }
+        // third quoting entry point: the method Arg::quote (what arg::join and the `# Command:` line use)
+        ("aqs", 1) => {
+            let q = arg::Arg::from(os(&parse_bytes_field(f[0]))).quote();
+            format!("{} | {}", bytes_field(q.as_bytes()), show_split(q.as_bytes()))
         }
         ("e", 1) => bytes_field(arg::to_stfu8(os(&parse_bytes_field(f[0]))).as_bytes()),
         ("d", 1) => {
